@@ -9,7 +9,7 @@ entry by entry and for all coefficient values in the unit box:
                     in word order)[n'_m, n_m]       for all encoded basis states (each mapping's documented encoding: binary = occupation
                     number in binary, least significant qubit first; unary = one-hot; Christiansen = one qubit per mode),
     closure         <x| M(s) |enc(n)> == 0 for every computational basis state x outside the encoded subspace (no leakage),
-    linearity       M(c1*s1 + c2*s2) == c1*M(s1) + c2*M(s2)            (Pauli word by Pauli word),
+    sums            M(s1 + s2) == M(s1) + M(s2) for sentences with arbitrary coefficients (Pauli word by Pauli word),
     adjoints        M(adjoint(s))    == adjoint(M(s)).
 Words are enumerated (a fixed list), coefficients are symbolic; the ladder matrices carry floating square roots, so the matrix
 identities are proved up to 1e-9 for coefficients with real and imaginary parts in [-1, 1].
@@ -130,7 +130,7 @@ def case(S, law, mname, a, b, concrete=None):
         return as_dict(apply_map(mname, sa.adjoint())), {k: conj(v) for k, v in as_dict(apply_map(mname, sa)).items()}
     if law == "linearity":
         cb = [C(f"b{i}") for i in range(len(SENTS[b]))]
-        c1, c2 = C("c1"), C("c2")
+        c1, c2 = 1, 1  # the operands' own coefficients are already arbitrary: sums only (products of two symbols make every query non-linear)
         merged = {}
         for w, x in zip(SENTS[a], ca):
             merged[w] = merged.get(w, 0) + c1 * x
@@ -192,6 +192,55 @@ def unit_box(S):
     return out
 
 
+def prove_boxed(S, name, A, B, replay, signature, tol=1e-9):
+    """|A - B| <= tol entrywise for all coefficients in the unit box.  First a LINEAR relaxation decided by z3 (QF_LRA): every
+    monomial of box variables lies in [-1, 1], so it is replaced by an independent variable m_j in [-1, 1] - an over-approximation of
+    the difference; only if that is satisfiable the exact non-linear query (obl.prove, with replay of its model) decides."""
+    import re
+    import time
+    import z3
+    from vf import poly as P
+
+    t0 = time.time()
+    polys = [q for q in sx._collect_polys(S, A, B) if q]
+    box = {idx for nm, idx in S.V.index.items() if idx and re.fullmatch(r"[abc]\d+_(re|im)", nm)}
+    ok = True
+    sol = z3.Solver()
+    sol.set("timeout", 30000)
+    mono_var = {}
+    claims = []
+    for q in polys:
+        for part in P.split_complex(q):
+            if not part:
+                continue
+            terms = []
+            for mono, coef in part.items():
+                if any(v not in box for v, _ in mono):
+                    ok = False
+                    break
+                if mono not in mono_var:
+                    mono_var[mono] = z3.Real(f"mono{len(mono_var)}")
+                terms.append(z3.RealVal(str(coef)) * mono_var[mono])
+            if not ok:
+                break
+            lin = z3.Sum(terms) if terms else z3.RealVal(0)
+            tv = z3.RealVal(str(sx.F(tol)))
+            claims.append(z3.Or(lin > tv, lin < -tv))
+        if not ok:
+            break
+    if ok:
+        sol.add(*[z3.And(m >= -1, m <= 1) for mono, m in mono_var.items() if mono != ()])
+        if () in mono_var:
+            sol.add(mono_var[()] == 1)
+        sol.add(z3.Or(*claims) if claims else z3.BoolVal(False))
+        r = str(sol.check())
+        if r == "unsat":
+            dt = round(time.time() - t0, 4)
+            return {"name": name, "status": "discharged", "symbols": obl.symbols_of(S, polys) or ["coefficients"], "nontrivial": True, "solver": "z3:unsat (linear relaxation over the unit box)", "solver_s": dt, "time_s": dt,
+                    "queries": 1, **({"path_assumptions": list(S.assumed)} if S.assumed else {})}
+    return obl.prove(S, name, A, B, replay=replay, signature=signature, timeout=90, tol=tol, extra=unit_box(S))
+
+
 def work(item):
     law, mname, a, b = item
     name = f"{mname}: {law} on ({a}{', ' + b if b else ''})"
@@ -210,8 +259,7 @@ def work(item):
 
         keys = sorted(set(got) | set(exp), key=str)
         what = "matrix entries on and off the encoded subspace" if law == "representation" else "Pauli-word coefficients"
-        return [obl.prove(S, f"{name} (path {i}): {len(keys)} {what} agree", [got.get(k, 0) for k in keys], [exp.get(k, 0) for k in keys], replay=rp, signature=f"{law}:{mname}", timeout=90,
-                          tol=1e-9, extra=unit_box(S))]
+        return [prove_boxed(S, f"{name} (path {i}): {len(keys)} {what} agree", [got.get(k, 0) for k in keys], [exp.get(k, 0) for k in keys], replay=rp, signature=f"{law}:{mname}")]
 
     try:
         return obl.run_instance(name, bld, consume, max_paths=128)
@@ -231,9 +279,9 @@ def run(ctx):
     items = []
     maps = list(MAPPINGS)
     if ctx.tier == "quick":
-        maps = [m for m in maps if m not in ("unary_mapping(n_states=4)", "binary_mapping(n_states=5)")]
+        maps = [m for m in maps if m not in ("unary_mapping(n_states=4)", "binary_mapping(n_states=5)", "binary_mapping(n_states=4)")]
     for m in maps:
-        for a in SENTS:
+        for a in (["s1", "s2", "s3", "s4"] if ctx.tier == "quick" else SENTS):
             items.append(("representation", m, a, None))
             items.append(("adjoint", m, a, None))
         # every coefficient that may vanish forks the library's prune(): linearity is run on the short sentences
